@@ -16,7 +16,7 @@ RUSTFLAGS="$FLAGS" timeout 1500 cargo test --offline --test demo > "$W/demo_patc
 SUITE="skipped"; NEWFAIL=""
 if [ -z "$SKIP" ]; then
   rm -f tests/demo.rs
-  timeout 3000 cargo test --offline --lib --no-fail-fast > "$W/suite.log" 2>&1
+  timeout 3000 cargo test --offline --lib --no-fail-fast ${SUITE_FLAGS:-} > "$W/suite.log" 2>&1
   python3 - "$W/suite.log" > "$W/suite.json" <<'PY'
 import json,re,sys
 stable=[t.split("::",1)[1] for t in json.load(open('/root/.vp/BASELINE.json'))['stable_pass']]
@@ -28,5 +28,5 @@ PY
   SUITE=$(cat "$W/suite.json")
 fi
 mkdir -p /verif/work/confirm; cp "$W"/demo_clean.log /verif/work/confirm/${LABEL}_demo_clean.log; cp "$W"/demo_patched.log /verif/work/confirm/${LABEL}_demo_patched.log; [ -f "$W/suite.log" ] && cp "$W/suite.log" /verif/work/confirm/${LABEL}_suite.log
-echo "{\"label\":\"$LABEL\",\"demo_clean_rc\":$RC_CLEAN,\"demo_patched_rc\":$RC_PATCH,\"suite\":$( [ "$SUITE" = skipped ] && echo '"skipped"' || echo "$SUITE")}"
+echo "{\"label\":\"$LABEL\",\"demo_clean_rc\":$RC_CLEAN,\"demo_patched_rc\":$RC_PATCH,\"suite_flags\":\"${SUITE_FLAGS:-}\",\"suite\":$( [ "$SUITE" = skipped ] && echo '"skipped"' || echo "$SUITE")}"
 cd /; git -C /repo worktree remove --force "$W"
